@@ -4,6 +4,7 @@ run every claimed check against it (VERIF_REPO), and record in seeded/<id>/meta.
 /repo is never touched; the scratch worktree lives outside /repo and /verif and is removed at the end."""
 import json, os, re, subprocess, sys, tempfile, shutil
 V = '/verif'
+VRUN = os.environ.get('SEED_VERIF', V)     # a frozen snapshot of /verif to run the checks from while /verif itself is being edited
 ids = sys.argv[1:] or sorted(d for d in os.listdir(V + '/seeded') if os.path.isfile(V + '/seeded/%s/patch.diff' % d))
 checks = [c['property_id'] for c in json.load(open(V + '/MANIFEST.json'))['checks']]
 wt = tempfile.mkdtemp(prefix='seedmx-')
@@ -21,7 +22,7 @@ try:
         only = os.environ.get('SEED_CHECKS')
         det = []
         for c in (only.split(',') if only else checks):
-            p = subprocess.run([V + '/check', c], env=dict(os.environ, VERIF_REPO=wt), stdout=subprocess.PIPE, stderr=subprocess.STDOUT, text=True)
+            p = subprocess.run([VRUN + '/check', c], env=dict(os.environ, VERIF_REPO=wt), stdout=subprocess.PIPE, stderr=subprocess.STDOUT, text=True)
             if p.returncode == 1:
                 rules = sorted(set(re.findall(r'violation \[([^\]]+)\]', p.stdout)))
                 det.append(dict(check=c, rules=rules))
